@@ -94,6 +94,22 @@ struct ovni_rproc rproc = {0};
 /* Data per thread */
 _Thread_local struct ovni_rthread rthread = {0};
 
+#ifdef OVNI_VERIF
+/* Verification hook: called at the linearization points of the process
+ * life-cycle (1: proc_init won the CAS, state is INIT; 2: about to publish
+ * READY; 3: proc_fini won the CAS, state is GONE; 4: thread_init saw READY).
+ * The default does nothing; a test driver may provide its own definition to
+ * hold a thread at one of these points. */
+__attribute__((weak, visibility("default"))) void
+ovni_verif_point(int id)
+{
+	(void) id;
+}
+#define VERIF_POINT(id) ovni_verif_point(id)
+#else
+#define VERIF_POINT(id)
+#endif
+
 void
 ovni_version_get(const char **version, const char **commit)
 {
@@ -263,6 +279,8 @@ ovni_proc_init(int app, const char *loom, int pid)
 			die("pid %d has finished, cannot init again", pid);
 	}
 
+	VERIF_POINT(1);
+
 	if (strlen(loom) >= OVNI_MAX_HOSTNAME)
 		die("loom name too long: %s", loom);
 
@@ -272,6 +290,8 @@ ovni_proc_init(int app, const char *loom, int pid)
 	rproc.clockid = CLOCK_MONOTONIC;
 
 	create_proc_dir(loom, pid);
+
+	VERIF_POINT(2);
 
 	atomic_store(&rproc.st, ST_READY);
 }
@@ -426,6 +446,8 @@ ovni_proc_fini(void)
 
 	if (!was_ready)
 		die("process not ready");
+
+	VERIF_POINT(3);
 
 	if (rproc.move_to_final) {
 		try_clean_dir(rproc.procdir);
@@ -585,6 +607,8 @@ ovni_thread_init(pid_t tid)
 
 	if (atomic_load(&rproc.st) != ST_READY)
 		die("process not ready");
+
+	VERIF_POINT(4);
 
 	memset(&rthread, 0, sizeof(rthread));
 
